@@ -258,14 +258,12 @@ impl AstNode for StakeDelegationCertificate {
     const RULE: Rule = Rule::cardano_stake_delegation_certificate;
 
     fn parse(pair: Pair<Rule>) -> Result<Self, Error> {
-        let span = pair.as_span().into();
-        let mut inner = pair.into_inner();
-
-        Ok(StakeDelegationCertificate {
-            pool: DataExpr::parse(inner.next().unwrap())?,
-            stake: DataExpr::parse(inner.next().unwrap())?,
-            span,
-        })
+        // the grammar accepts the block, but neither the AST construction nor the
+        // lowering of it exist yet
+        Err(Error::unsupported(
+            "stake_delegation_certificate is not supported",
+            &pair,
+        ))
     }
 
     fn span(&self) -> &Span {
